@@ -9,7 +9,7 @@
    returned list, [o_graph] the working graph afterwards, [o_status] 0 iff the loop ended normally
    (1 = fuel |E|+1 exhausted, 2 = the ValueError of min() on an empty list). *)
 From Coq Require Import List Arith Bool.
-From GV Require Import Lib.Tree Lib.GraphE Model.Eecc Proofs.EeccP Proofs.EeccSmallP.
+From GV Require Import Lib.Tree Lib.GraphE Model.Eecc Proofs.EeccP Proofs.EeccGenP Proofs.EeccSmallP.
 Import ListNotations.
 
 (* the property, at full strength (all simple graphs, all m0 >= 2, all schedules) *)
@@ -21,6 +21,33 @@ Definition C09_statement (g : graph) (m0 : nat) (rs : list nat) : Prop :=
 
 Definition C09_full : Prop :=
   forall g m0 rs, simple_graph g -> 2 <= m0 -> C09_statement g m0 rs.
+
+(* GENERAL (no size bound; invariant of the greedy loop, Proofs/EeccGenP.v): for EVERY edge list without
+   self-loops (in particular every simple graph), every bound m0 >= 2 and every tie-break schedule, the
+   model of get_EECC ends normally (the fuel |E|+1 is not exhausted, min() never sees an empty list),
+   the working graph is empty, the cover is an exact cover by cliques of the input within the bound, and
+   every maximal clique with at most m0 vertices that shares no edge with another one is a member. *)
+Theorem C09_exact_cover_general :
+  forall g m0 rs, loopless g -> 2 <= m0 -> C09_statement g m0 rs.
+Proof.
+  intros g m0 rs Hl Hm. destruct (eecc_exact_cover g m0 rs Hl Hm) as [H1 [H2 H3]].
+  split; [exact H1 |]. split; [exact H2 |]. split; [exact H3 | exact (eecc_isolated_intact g m0 rs Hl Hm)].
+Qed.
+Print Assumptions C09_exact_cover_general.
+
+Theorem C09_full_holds : C09_full.
+Proof.
+  intros g m0 rs [_ Hlt] Hm. apply C09_exact_cover_general; [| exact Hm].
+  intros e He Heq. specialize (Hlt e He). rewrite Heq in Hlt. exact (Nat.lt_irrefl _ Hlt).
+Qed.
+Print Assumptions C09_full_holds.
+
+(* the loop invariant itself: choosing ANY candidate (not only the one the scores prefer) keeps it *)
+Theorem C09_choose_keeps_invariant :
+  forall m0 g0 g EC N cli, loopless g0 -> Inv0 m0 g0 g EC -> InvN m0 g N -> In cli (map fst N) ->
+    Inv0 m0 g0 (remove_clique g cli) (EC ++ [cli]) /\ length (remove_clique g cli) < length g.
+Proof. exact choose_inv. Qed.
+Print Assumptions C09_choose_keeps_invariant.
 
 (* GENERAL: the executable checker run on the implementation's covers is exactly the exact-cover
    specification: every member a duplicate-free clique of g with 2 <= size <= m0, and for every
@@ -55,10 +82,10 @@ Theorem C09_every_schedule_enumerated :
 Proof. exact run_in_all. Qed.
 Print Assumptions C09_every_schedule_enumerated.
 
-(* BOUNDED (reflection: vm_compute over all 1024 edge subsets of K5 x m0 in 2..6 x every outcome of
-   eecc_all, lifted by forallb_forall and the theorem above): the model's output satisfies the
-   specification for every graph on at most 5 labelled vertices, every bound 2..6 and EVERY
-   tie-break sequence; the fuel |E|+1 is never exhausted and the working graph ends empty. *)
+(* BOUNDED, independent of the invariant proof (reflection: vm_compute over all 1024 edge subsets of K5 x
+   m0 in 2..6 x every outcome of eecc_all, lifted by forallb_forall and the theorem above): the model's
+   output passes the executable CHECKER (the one run on the implementation) for every graph on at most
+   5 labelled vertices, every bound 2..6 and EVERY tie-break sequence. *)
 Theorem C09_exact_cover_upto_5 :
   forall g m0 rs, subseq g (all_pairs 5) -> 2 <= m0 <= 6 -> C09_statement g m0 rs.
 Proof. exact exact_cover_upto_5. Qed.
